@@ -49,14 +49,19 @@ type (
 // BuildExecutor use db type and transaction type to build an executor. the executor can
 // add custom hook, and intercept the user's business sql to generate the undo log.
 func BuildExecutor(dbType types.DBType, transactionMode types.TransactionMode, query string) (SQLExecutor, error) {
-	parseContext, err := parser.DoParser(query)
-	if err != nil {
-		return nil, err
-	}
-
 	hooks := make([]SQLHook, 0, 4)
 	hooks = append(hooks, commonHook...)
-	hooks = append(hooks, hookSolts[parseContext.SQLType]...)
+
+	parseContext, err := parser.DoParser(query)
+	if err != nil {
+		// outside a global transaction the statement is only passed through: a text this parser
+		// does not cover must still reach the database (it may be perfectly valid there)
+		if transactionMode != types.Local {
+			return nil, err
+		}
+	} else {
+		hooks = append(hooks, hookSolts[parseContext.SQLType]...)
+	}
 
 	e := atExecutors[dbType]()
 	e.Interceptors(hooks)
